@@ -501,6 +501,23 @@ class _IfExpStmts(ast.NodeTransformer):
         return node
 
 
+# ------------------------------------------------------------------------------------------------ N6
+class _WhileTrue(ast.NodeTransformer):
+    """`while True:` whose body starts with `if t: <block ending in return / raise>` (no else) is the loop `while not t: <rest>` with that block as its
+    else clause (a `break` in the rest skips the else clause exactly as it skipped the exit block before)."""
+
+    def visit_While(self, node: ast.While) -> ast.AST:
+        self.generic_visit(node)
+        if isinstance(node.test, ast.Constant) and node.test.value is True and not node.orelse and len(node.body) >= 2:
+            first = node.body[0]
+            if isinstance(first, ast.If) and not first.orelse and len(first.body) == 1 and isinstance(first.body[-1], (ast.Return, ast.Raise)) \
+                    and not any(isinstance(x, (ast.Break, ast.Continue)) for x in ast.walk(first)):
+                t = first.test
+                neg = t.operand if isinstance(t, ast.UnaryOp) and isinstance(t.op, ast.Not) else ast.copy_location(ast.UnaryOp(op=ast.Not(), operand=t), t)
+                return ast.copy_location(ast.While(test=neg, body=node.body[1:], orelse=first.body), node)
+        return node
+
+
 # ------------------------------------------------------------------------------------------------ entry
 def normalise(trees: dict[str, ast.Module]) -> None:
     known = known_names()
@@ -508,6 +525,7 @@ def normalise(trees: dict[str, ast.Module]) -> None:
     for t in trees.values():
         _inline_constants(t, known)
         _Exprs().visit(t)
+        _WhileTrue().visit(t)
         for fn in [n for n in ast.walk(t) if isinstance(n, (ast.FunctionDef, ast.AsyncFunctionDef))]:
             fn.body = [_IfExpStmts().visit(st) for st in fn.body]
         ast.fix_missing_locations(t)
